@@ -18,6 +18,7 @@ RULE = (
     "file order, value x factor (rel 1e-12), units attribute, constants once as group attrs with "
     "the enum label, header attrs present iff the field is non-blank; missing and unexpected "
     "leaves are discrepancies. Non-trivial: >= 2 lines."
+    " One case in four is judged on the tree returned by an open that also writes the index cache. Stage 'in-place-pairs': two products with the same file names at the same root, one after the other, both judged."
 )
 ASSUMPTIONS = [
     "layout tables for the image descriptor and both line records (frozen)",
